@@ -325,3 +325,63 @@ def fixture_traces(v, pid, fields, tag):
         raise ToolError(f"trace validation accepted corrupted fixture traces ({rejected} of {expected} rejected)")
     return {"fixture_traces": len(traces), "fixture_cycles": st["cycles"], "fixture_events": n, "fixture_traces_explained_by_model": st["explained"],
             "fixture_traces_not_explained": st["unexplained"], "corrupted_copies_rejected": f"{rejected} of {expected}"}
+
+
+SUITE_TARGET = vlib.TUFTOOL_TARGET      # shared with the tuftool binary build: same flags, same dependencies
+
+
+def build_suite_tests():
+    """test binaries of tough and tuftool with the hooks compiled in (cfg tough_verif)"""
+    import fcntl
+    env = {"CARGO_NET_OFFLINE": "true", "CARGO_TARGET_DIR": SUITE_TARGET, "CARGO_PROFILE_DEV_DEBUG": "0",
+           "CARGO_PROFILE_TEST_DEBUG": "0", "RUSTFLAGS": "--cfg tough_verif --check-cfg cfg(tough_verif)"}
+    with open(os.path.join(vlib.WORK, ".build-tuftool.lock"), "w") as lk:
+        fcntl.flock(lk, fcntl.LOCK_EX)
+        p = vlib.sh(["cargo", "test", "--offline", "--quiet", "-p", "tough", "-p", "tuftool", "--no-run"], cwd=vlib.REPO, env=env, check=False, timeout=3600)
+    if p.returncode != 0:
+        raise ToolError("building the repository's tests with the hook failed:\n" + (p.stdout or "")[-4000:])
+    return env
+
+
+def suite_traces(v, pid, fields, tag):
+    """The repository's own test suite (cargo test -p tough -p tuftool) is run with the load-tracing hook on
+    (tough::verif_hooks::traced_load, TOUGH_VERIF_TRACE): every RepositoryLoader::load the tests perform - in the
+    test processes and in the tuftool processes they spawn - writes what it was given, what it pulled from the
+    transport, its result and the datastore contents.  The records are mapped to Trace_Client events by the
+    abstraction function of `vh fixtures` and validated against TufClient in both modes."""
+    w = workdir(tag)
+    rec = os.path.join(w, "records")
+    subprocess.run(["rm", "-rf", rec])
+    os.makedirs(rec)
+    env = build_suite_tests()
+    env = dict(env, TOUGH_VERIF_TRACE=rec)
+    p = vlib.sh(["cargo", "test", "--offline", "--quiet", "-p", "tough", "-p", "tuftool", "--", "--test-threads", "8"], cwd=vlib.REPO, env=env, check=False, timeout=3600)
+    tests_ok = p.returncode == 0
+    out = os.path.join(w, "suite.ndjson")
+    vlib.vh(["suite-traces", "--dir", rec, "--out", out], timeout=600)
+    traces, cur = {}, None
+    for e in read_ndjson(out):
+        if e["ev"] == "reset":
+            cur = e["id"]
+            traces[cur] = []
+        traces[cur].append(e)
+    if len(traces) < 20:
+        raise ToolError(f"only {len(traces)} loads were recorded while the repository's tests ran (tests ok: {tests_ok}):\n" + (p.stdout or "")[-1500:])
+    groups = {}
+    for tid, evs in traces.items():
+        groups.setdefault(evs[0]["limits"]["updates"], {})[tid] = evs
+    st = {"traces": 0, "explained": 0, "unexplained": 0, "cycles": 0}
+    nev = 0
+    for upd, trs in groups.items():
+        consts = {"LimRoot": 1, "LimTs": 1, "LimSn": 1, "LimTg": 1, "Unit": 16777216, "MaxRootUpdates": upd}
+        strict, obs, mism, n, _ = validate(trs, f"{tag}-tv{upd}", consts, parallel=2)
+        s = judge(v, pid, trs, {tid: {"fixture": tid} for tid in trs}, strict, obs, mism, fields)
+        for k in st:
+            st[k] += s[k]
+        nev += n
+    results = {}
+    for evs in traces.values():
+        r = [e for e in evs if e["ev"] == "end"][0]["res"]
+        results[r] = results.get(r, 0) + 1
+    return {"suite_loads_recorded": len(traces), "suite_trace_events": nev, "suite_traces_explained_by_model": st["explained"],
+            "suite_traces_not_explained": st["unexplained"], "suite_load_results": results, "suite_tests_passed": tests_ok}
